@@ -241,6 +241,22 @@ def batch_worker(part, sizes):
                       % (N, len(badw), badw[0], w[badw[0]], ref_w[badw[0]]), case)
         if not (np.abs(w + w2 - 1).max() <= 1e-5):
             part.fail("weight-complement", "complementary weights of a list of %d points do not sum to one at index %d" % (N, int(np.argmax(np.abs(w + w2 - 1)))), case)
+        # pairwise: the batch size TOGETHER WITH a non-zero background, through both constructors
+        for bg in (1e-2, 1e-5):
+            for cname, swb in (("from_arrays", StockholderWeight.from_arrays(zs[:3], sites[:3], zs[3:], sites[3:], background=bg)),
+                               ("constructor", StockholderWeight(PromoleculeDensity((zs[:3], sites[:3])), PromoleculeDensity((zs[3:], sites[3:])), background=bg))):
+                part.tr(N)
+                try:
+                    wb = np.asarray(swb.weights(pts[:N]), dtype=np.float64)
+                    refb = np.concatenate([np.asarray(swb.weights(pts[i:i + 1000]), dtype=np.float64) for i in range(0, min(N, 3000), 1000)])[:min(N, 3000)]
+                    ra = np.asarray(PromoleculeDensity((zs[:3], sites[:3])).rho(pts[:N]), dtype=np.float64)
+                    wantb = ra / (got + bg)
+                except Exception as e:
+                    part.fail("batch-raise", "weights with background %g of %d points (%s) raised %r" % (bg, N, cname, e), case)
+                    continue
+                if wb.shape != (N,) or not (np.abs(wb[:len(refb)] - refb).max() <= 1e-6) or not (np.abs(wb - wantb).max() <= 2e-4):
+                    part.fail("batch-dependence:weights-with-background", "weights with background %g (%s) of a list of %d points differ from interior/(interior+exterior+background) by %.3g"
+                              % (bg, cname, N, float(np.abs(wb - wantb).max()) if wb.shape == (N,) else np.inf), case)
         part.outcome(("batch", N > 65536, N % 2))
 
 
